@@ -155,6 +155,48 @@ def shard(arg):
   return states, trans, execs, segs, okc, bad
 
 
+def udp_sizes(_):
+  """Datagrams at and just below the size of the UDP port's read buffer (twisted.internet.udp.Port.maxPacketSize = 8192:
+  everything up to that size arrives complete) and at common MTU-derived sizes, filled with well-formed lines."""
+  env.boot()
+  bad = []
+  n = 0
+  for size in (508, 1472, 4096, 8190, 8191, 8192):
+    for end in (b'\n', b''):
+      lines = []
+      seq = []
+      i = 0
+      while True:
+        dp = ('m%04d.é' % i, 1700000000 + i, float(i) + 0.5)
+        ln = wire.line(*dp)
+        if sum(len(x) for x in lines) + len(ln) + 40 > size:
+          break
+        lines.append(ln)
+        seq.append(dp)
+        i += 1
+      # the last line is padded with a long metric name so that the datagram has exactly `size` bytes
+      used = sum(len(x) for x in lines)
+      tail_fixed = len(wire.line('', 1, 1.5)) - (0 if end else 1)
+      name = 'z' * (size - used - tail_fixed)
+      last = wire.line(name, 1, 1.5)
+      if not end:
+        last = last.rstrip(b'\n')
+      data = b''.join(lines) + last
+      seq.append((name, 1, 1.5))
+      assert len(data) == size, (len(data), size)
+      rig = wire.Rig('udp')
+      exc = rig.feed(data)
+      got = list(rig.delivered)
+      rig.close()
+      n += 1
+      if exc is not None or not same_log(got, expected(seq)):
+        miss = [d[0][:12] for d in seq[len(got):]][:3]
+        bad.append(('udp-mismatch', 'UDP datagram of exactly %d bytes (%d well-formed lines, %s trailing newline): %d delivered, exception %r, '
+                    'first missing %r' % (size, len(seq), 'with' if end else 'without', len(got), exc, miss),
+                    {'kind': 'udp', 'sequence': [list(x) for x in seq], 'datagrams': [data.hex()]}))
+  return n, bad[:2]
+
+
 def sequences(ctx):
   L = ctx.pick(2, 3)
   seqs = []
@@ -166,6 +208,10 @@ def sequences(ctx):
 
 def run(ctx):
   env.boot()
+  un, ubad = core.pmap(udp_sizes, [0])[0]
+  for key, what, rep in ubad:
+    ctx.violation(key, what, rep)
+  ctx.add(udp_datagram_size_cases=un)
   seqs = core.seeded_order(sequences(ctx), ctx.seed)
   nsh = 64 if not ctx.thorough else 256
   res = core.pmap(shard, [(seqs[i::nsh], 2) for i in range(nsh)], chunksize=1)
